@@ -45,6 +45,8 @@ class FakeAMQPServer:
         self.seq = 0
         self.channels = []
         self.dropped = []        # messages discarded (no DLX / unroutable)
+        self.qos_per_consumer = False   # False: basic.qos acts on the whole channel at once (AMQP 0-9-1 as specified); True: RabbitMQ's per-consumer reading
+        self.rr = {}             # queue name -> index of the consumer the next message goes to
         self.confirm_turns = 0   # loop turns between routing (and delivery) of a publish and its confirm
         self.settle_turns = 0    # loop turns a basic_ack/nack/reject call takes to return after the server acted on it
         self.settle_delay = 0      # seconds a basic_ack/nack/reject call takes to drain after its frame has been written (slow connection)
@@ -88,8 +90,23 @@ class FakeAMQPServer:
         self.route(rk, new, loop)
 
     def pump(self, loop):
-        for ch in self.channels:
-            ch._pump(loop)
+        """Deliver ready messages to consumers with prefetch room, round-robin per queue among those consumers
+        (RabbitMQ dispatches to the next consumer that can take a message, not always to the first one)."""
+        progress = True
+        while progress:
+            progress = False
+            for qname, q in list(self.queues.items()):
+                if not q.ready:
+                    continue
+                cands = [(ch, tag) for ch in self.channels if not ch.is_closed for tag, (qn, _, pf) in ch.consumers.items()
+                         if qn == qname and ch._has_room(tag, pf)]
+                if not cands:
+                    continue
+                i = self.rr.get(qname, 0) % len(cands)
+                self.rr[qname] = i + 1
+                ch, tag = cands[i]
+                ch._deliver(q, tag, loop)
+                progress = True
 
     def snapshot(self):
         """queue name -> list of message ids ready; plus unacked per channel."""
@@ -112,7 +129,7 @@ class FakeChannel:
     def __init__(self, server: FakeAMQPServer):
         self.server = server
         server.channels.append(self)
-        self.consumers = {}      # tag -> (queue name, callback)
+        self.consumers = {}      # tag -> (queue name, callback, prefetch in force when the consumer was started)
         self.unacked = {}        # delivery tag -> (queue, QMsg, consumer tag)
         self.prefetch = 0
         self.next_tag = 0
@@ -145,7 +162,7 @@ class FakeChannel:
         await asyncio.sleep(0)
         self.next_consumer += 1
         tag = f"ctag{id(self) % 1000}.{self.next_consumer}"
-        self.consumers[tag] = (queue, consumer_callback)
+        self.consumers[tag] = (queue, consumer_callback, self.prefetch)
         self.log.append(("consume", queue, tag))
         self._pump(asyncio.get_running_loop())
         for _ in range(self.server.consume_ok_turns):
@@ -159,20 +176,27 @@ class FakeChannel:
         return spec.Basic.CancelOk(consumer_tag=consumer_tag)
 
     def _pump(self, loop):
-        for tag, (qname, cb) in list(self.consumers.items()):
-            q = self.server.queues.get(qname)
-            if q is None:
-                continue
-            while q.ready and (self.prefetch == 0 or len(self.unacked) < self.prefetch):
-                m = q.ready.pop(0)
-                self.next_tag += 1
-                dtag = self.next_tag
-                self.unacked[dtag] = (q, m, tag)
-                deliver = spec.Basic.Deliver(consumer_tag=tag, delivery_tag=dtag, redelivered=m.redelivered,
-                                             exchange="", routing_key=m.routing_key)
-                dm = DeliveredMessage(delivery=deliver, header=ContentHeader(properties=m.props, body_size=len(m.body)),
-                                      body=m.body, channel=self)
-                loop.create_task(cb(dm))
+        self.server.pump(loop)
+
+    def _has_room(self, tag, prefetch_at_consume):
+        if self.server.qos_per_consumer:
+            # RabbitMQ's reading of basic.qos(global=false): the limit is fixed per consumer when it is started and
+            # counts that consumer's own unacknowledged deliveries; a later basic.qos only concerns consumers started afterwards
+            mine = sum(1 for (_, _, t) in self.unacked.values() if t == tag)
+            return prefetch_at_consume == 0 or mine < prefetch_at_consume
+        return self.prefetch == 0 or len(self.unacked) < self.prefetch
+
+    def _deliver(self, q, tag, loop):
+        cb = self.consumers[tag][1]
+        m = q.ready.pop(0)
+        self.next_tag += 1
+        dtag = self.next_tag
+        self.unacked[dtag] = (q, m, tag)
+        deliver = spec.Basic.Deliver(consumer_tag=tag, delivery_tag=dtag, redelivered=m.redelivered,
+                                     exchange="", routing_key=m.routing_key)
+        dm = DeliveredMessage(delivery=deliver, header=ContentHeader(properties=m.props, body_size=len(m.body)),
+                              body=m.body, channel=self)
+        loop.create_task(cb(dm))
 
     # -- settling -----------------------------------------------------------------------
     async def basic_ack(self, delivery_tag, multiple=False, **kw):
